@@ -66,3 +66,4 @@ classdef("WorstCaseEvaluator", bases=["Evaluator"], fields={"to_evaluate": "List
 classdef("BenchmarkFunction", bases=["Problem"], fields={"dimension": "Int"})
 for _c in ("DTLZI", "DTLZII", "DTLZIII", "DTLZIV", "ZDT1", "BiObjectiveTestProblem"):
     classdef(_c, bases=["BenchmarkFunction"], fields={})
+classdef("Results", fields={"problem": "Ref[Problem]"})
